@@ -75,6 +75,35 @@ func crashQuery(r *Rand, ix uint64) string {
 			"put ('a', 'b'), (upper(key), key)", "remove 'a', 'a', 'a'", "delete where true limit 0", "delete where key in ('a', 'a') limit 1, 1", "select * where key in ('a', 'a', 'b') limit 1, 1",
 		})
 	}
+	if r.Chance(1, 40) {
+		// rings of select-field names: n fields, each defined through the next (the last through the first),
+		// through a call argument, an operator operand or a bare name; entered from WHERE or not at all
+		n := 1 + r.Intn(5)
+		names := []string{"a", "b", "c", "d", "e"}[:n]
+		var fs []string
+		for i, nm := range names {
+			next := names[(i+1)%n]
+			switch r.Intn(4) {
+			case 0:
+				fs = append(fs, "upper("+next+") as "+nm)
+			case 1:
+				fs = append(fs, next+" + 'x' as "+nm)
+			case 2:
+				fs = append(fs, "int("+next+") + 1 as "+nm)
+			default:
+				fs = append(fs, next+" as "+nm)
+			}
+		}
+		// sometimes a chain that is NOT a ring (legal): break the last link
+		if r.Chance(1, 4) {
+			fs[n-1] = "upper(key) as " + names[n-1]
+		}
+		for i := len(fs) - 1; i > 0; i-- {
+			j := r.Intn(i + 1)
+			fs[i], fs[j] = fs[j], fs[i]
+		}
+		return "select " + strings.Join(fs, ", ") + " where " + pick(r, []string{"true", "key ^= 'k'", names[0] + " != 'zz'", "strlen(" + names[n-1] + ") > 0"})
+	}
 	q := genStatement(g)
 	for k := r.Intn(3); k > 0; k-- {
 		q = mutate(r, q)
